@@ -36,6 +36,14 @@ def gen_models(rnd, n):
                           "hasVno32": has32,
                           "vno32": be32(rnd.choice([0, 1, 2, 255, 256, 257, 0x7fffffff, 0x80000000, 0xffffffff, rnd.getrandbits(32)])),
                           "trailing": tr.hex()})
+        if k % 3 == 2:
+            # every third model stays inside what MIT's reader accepts (no empty realm, component or key, at least one component),
+            # so that the cross-check of the writer against that reader (mitcross) sees files with many entries
+            for it in items:
+                if it["kind"] == "entry":
+                    it["realm"] = it["realm"] or b"R.TEST".hex()
+                    it["comps"] = [c or b"c".hex() for c in it["comps"]] or [b"svc".hex()]
+                    it["key"] = it["key"] or bytes(16).hex()
         ms.append({"version": version, "items": items})
     return ms
 
@@ -57,6 +65,12 @@ def main(tier):
         vlib.write_ndjson(os.path.join(wd, "models.ndjson"), models)
         g = vlib.tlc_or_die(wd, "GenC14", cfg="GenC14.cfg" if not run.thorough else "GenC14T.cfg", workers=1, timeout=2400, xmx="12g")
         run.extra["generated"] = "models, keytabs, queries = " + (g.tags("COUNTS") or ["?"])[0]
+        # ---- the specification's writer against MIT Kerberos' reader (validates KeytabFormat, the oracle of the image lines)
+        import mitcross
+        mk = mitcross.mit_keytab_cross(wd, 300 if not run.thorough else 2000)
+        run.extra["keytabformat_vs_mit_reader"] = {k: v for k, v in mk.items() if k != "first"}
+        if mk.get("disagreements"):
+            raise vlib.Inconclusive("KeytabFormat and MIT's keytab reader disagree on %d files; first: %s" % (mk["disagreements"], mk["first"]))
         trace = os.path.join(wd, "trace.ndjson")
         vlib.run_harness(["c14", "-out", trace, "-images", os.path.join(wd, "images.ndjson"), "-lookups", os.path.join(wd, "lookups.ndjson"),
                           "-queries", os.path.join(wd, "queries.ndjson")], timeout=3000, ok_codes=(0, 3))   # 3: stopped after calls that never returned; the trace is a prefix
